@@ -196,6 +196,25 @@ func vr01Err(err error) string {
 	return "err?"
 }
 
+// an AAA attribute from its token: "-" absent, "!" present but not a string, "junk" a string that is no
+// address, <addr> / <addr>/<len> the textual address / CIDR; name=true: a pool name token (0 = "")
+func vr01Attr(m map[string]interface{}, key, tok string, name bool) {
+	switch {
+	case tok == "-":
+	case tok == "!":
+		m[key] = 7
+	case tok == "junk":
+		m[key] = "not-an-address"
+	case name:
+		m[key] = vr01Name("n", tok)
+	case strings.Contains(tok, "/"):
+		i := strings.LastIndex(tok, "/")
+		m[key] = vr01Addr(tok[:i]).String() + "/" + tok[i+1:]
+	default:
+		m[key] = vr01Addr(tok).String()
+	}
+}
+
 func vr01Dash(s string) string {
 	if s == "" {
 		return "-"
@@ -233,9 +252,17 @@ func vr01Res(f []string) string {
 			} else {
 				res = append(res, "noctx")
 			}
-		case 'Y', 'y': // Y<sid>,<pf>,<override>,<vrf>,<addr|->   y<sid>: ResolveV4 again with the kept context
+		case 'Y', 'y', 'X': // Y<sid>,<pf>,<override>,<vrf>,<addr|->   y<sid>: ResolveV4 again with the kept context
+			// X<sid>,<pf|0>,<vrf>,<ipv4_address attr>,<pool attr>: context built by allocator.NewContext from AAA attributes
 			var ctx *allocator.Context
-			if op[0] == 'y' {
+			if op[0] == 'X' {
+				q := strings.Split(op[1:], ",")
+				attrs := map[string]interface{}{}
+				vr01Attr(attrs, "ipv4_address", q[3], false)
+				vr01Attr(attrs, "pool", q[4], true)
+				ctx = allocator.NewContext("s"+q[0], nil, 0, 0, vr01Name("v", q[2]), "", vr01Name("p", q[1]), "", attrs)
+				c4[q[0]] = ctx
+			} else if op[0] == 'y' {
 				if ctx = c4[op[1:]]; ctx == nil {
 					res = append(res, "noctx")
 					continue
@@ -248,8 +275,7 @@ func vr01Res(f []string) string {
 				}
 				c4[q[0]] = ctx
 			}
-			q := []string{"", ctx.ProfileName[1:]}
-			prof := v4p["p"+q[1]]
+			prof := v4p[ctx.ProfileName]
 			if prof == nil {
 				prof = &ip.IPv4Profile{}
 			}
@@ -259,9 +285,19 @@ func vr01Res(f []string) string {
 			} else {
 				res = append(res, "r"+vr01ShowIP(got.YourIP)+"@"+vr01Dash(got.PoolName))
 			}
-		case 'Z', 'z': // Z<sid>,<pf>,<iana override>,<pd override>,<vrf>,<addr|->,<pfx|->   z<sid>: again, kept context
+		case 'Z', 'z', 'W': // Z<sid>,<pf>,<iana override>,<pd override>,<vrf>,<addr|->,<pfx|->   z<sid>: again, kept context
+			// W<sid>,<pf6|0>,<vrf>,<ipv6_address attr>,<ipv6_prefix attr>,<iana_pool attr>,<pd_pool attr>: NewContext
 			var ctx *allocator.Context
-			if op[0] == 'z' {
+			if op[0] == 'W' {
+				q := strings.Split(op[1:], ",")
+				attrs := map[string]interface{}{}
+				vr01Attr(attrs, "ipv6_address", q[3], false)
+				vr01Attr(attrs, "ipv6_prefix", q[4], false)
+				vr01Attr(attrs, "iana_pool", q[5], true)
+				vr01Attr(attrs, "pd_pool", q[6], true)
+				ctx = allocator.NewContext("s"+q[0], nil, 0, 0, vr01Name("v", q[2]), "", "", vr01Name("p", q[1]), attrs)
+				c6[q[0]] = ctx
+			} else if op[0] == 'z' {
 				if ctx = c6[op[1:]]; ctx == nil {
 					res = append(res, "noctx")
 					continue
@@ -279,8 +315,7 @@ func vr01Res(f []string) string {
 				c6[q[0]] = ctx
 			}
 			given := ctx.IPv6Prefix != nil
-			q := []string{"", ctx.IPv6ProfileName[1:]}
-			prof := v6p["p"+q[1]]
+			prof := v6p[ctx.IPv6ProfileName]
 			if prof == nil {
 				prof = &ip.IPv6Profile{}
 			}
@@ -304,7 +339,11 @@ func vr01Res(f []string) string {
 				}
 				rna, rpd = vr01Dash(got.IANAPoolName), vr01Dash(got.PDPoolName)
 			}
-			res = append(res, fmt.Sprintf("%s;na=%s;napool=%s;pd=%s;pdpool=%s;rna=%s;rpd=%s", s, na, vr01Dash(ctx.AllocatedIANAPool), pd, vr01Dash(ctx.AllocatedPDPool), rna, rpd))
+			cpd := "-" // the prefix the context carries after the call, brought or allocated
+			if ctx.IPv6Prefix != nil {
+				cpd = vr01ShowPfx(ctx.IPv6Prefix)
+			}
+			res = append(res, fmt.Sprintf("%s;na=%s;napool=%s;pd=%s;pdpool=%s;rna=%s;rpd=%s;cpd=%s", s, na, vr01Dash(ctx.AllocatedIANAPool), pd, vr01Dash(ctx.AllocatedPDPool), rna, rpd, cpd))
 		case 'A':
 			fam := op[1]
 			q := strings.Split(op[2:], ",")
